@@ -117,7 +117,7 @@ where
             }
         }
 
-        deserializer.deserialize_seq(GraphVisitor {
+        deserializer.deserialize_tuple(2, GraphVisitor {
             _phantom: std::marker::PhantomData,
         })
     }
